@@ -23,9 +23,10 @@ Lemma wi_shpath : wake_inv shpath. Proof. unfold shpath; wake_tac. Qed.
 Lemma wi_atclose : wake_inv atclose. Proof. unfold atclose; wake_tac. Qed.
 
 (* where a call invoked after shutdown can be, and what it then knows about the state word *)
-Definition Llate (s : shared) (th : thr) : Prop :=
+Definition Llate (fc : bool) (s : shared) (th : thr) : Prop :=
   l_late th = true ->
   match pc th with
+  | SbWrap => if fc then 3 <= sz (s_state s) <= 4 else False     (* since 4ac6152 every Submit passes the wrap once *)
   | SbChkStopped | StChkStopped | SnChkStopped => sz (s_state s) = 4
   | SbNil | SbRetInvalid | SbFor | SbChkClosing | SbRetClosing | SbRetStopped
   | StFor | StChkClosing | StRetClosing | StRetStopped
@@ -45,24 +46,24 @@ Record Inv2 (c : pcfg) : Prop := {
            (zb (g_shut (c_gh c)) + zb (g_now (c_gh c)) = 1 <-> 3 <= sz (s_state (c_sh c)) <= 4);
   w_shuts : g_shuts (c_gh c) + tsum shpath (c_thr c) = zb (g_shut (c_gh c)) + zb (g_now (c_gh c));
   w_closed : zb (s_closed (c_sh c)) + tsum atclose (c_thr c) = zb (g_shut (c_gh c)) + zb (g_now (c_gh c));
-  w_late : tall (Llate (c_sh c)) (c_thr c);
+  w_late : tall (Llate (i_fixc (c_par c)) (c_sh c)) (c_thr c);
   w_nostart : g_began (c_gh c) = false -> g_started (c_gh c) = [];
   w_counts : 0 <= g_starts (c_gh c) /\ 0 <= g_shuts (c_gh c)
 }.
 
-Lemma wo_Llate s : wake_ok (Llate s).
+Lemma wo_Llate fc s : wake_ok (Llate fc s).
 Proof.
   intros th Hp H. apply is_parked_pc in Hp. unfold Llate in *. rewrite Hp in H.
   unfold recv_ok, recv_closed, recv_int. cbn. repeat split; intros; auto.
 Qed.
 
-Lemma Llate_transfer s s' l :
+Lemma Llate_transfer fc s s' l :
   (sz (s_state s) = 4 -> sz (s_state s') = 4) ->
   (3 <= sz (s_state s) <= 4 -> 3 <= sz (s_state s') <= 4) ->
-  tall (Llate s) l -> tall (Llate s') l.
+  tall (Llate fc s) l -> tall (Llate fc s') l.
 Proof.
   intros H4 H34. apply tall_impl. intros th H Hl. specialize (H Hl). unfold Llate.
-  destruct (pc th); auto.
+  destruct (pc th); auto. destruct fc; auto.
 Qed.
 
 Lemma spath_nonneg th : 0 <= spath th. Proof. apply b2z_nonneg. Qed.
@@ -94,7 +95,7 @@ Lemma inv2_frame c t th th' s' c' obs w g :
   apply_out c t (mkOut s' (Some th') None None w g) = Some (c', obs) ->
   forallb inert_gev g = true ->
   s_state s' = s_state (c_sh c) -> s_prev s' = s_prev (c_sh c) -> s_closed s' = s_closed (c_sh c) ->
-  cls2 (pc th') = cls2 (pc th) -> Llate s' th' -> Inv2 c'.
+  cls2 (pc th') = cls2 (pc th) -> Llate (i_fixc (c_par c)) s' th' -> Inv2 c'.
 Proof.
   intros [Wb Ws Wd Wsh Wc Wl Wn Wk] Hl Ha Hg Es Ep Ec El HL.
   unfold cls2 in El. injection El as E1 E2 E3 E4.
@@ -112,10 +113,10 @@ Proof.
   assert (A2 : tsum spath (c_thr c') = tsum spath (c_thr c)) by (clear - Espath; lia).
   assert (A3 : tsum shpath (c_thr c') = tsum shpath (c_thr c)) by (clear - Eshpath; lia).
   assert (A4 : tsum atclose (c_thr c') = tsum atclose (c_thr c)) by (clear - Eatclose; lia).
-  constructor; rewrite ?Fsh, ?G1, ?G2, ?G3, ?G4, ?G5, ?G6, ?Es, ?Ep, ?Ec, ?A1, ?A2, ?A3, ?A4; auto.
+  constructor; rewrite ?Fpar, ?Fsh, ?G1, ?G2, ?G3, ?G4, ?G5, ?G6, ?Es, ?Ep, ?Ec, ?A1, ?A2, ?A3, ?A4; auto.
   eapply apply_out_tall; [ | | exact Ha | | ].
   - apply wo_Llate.
-  - apply (Llate_transfer (c_sh c)); [rewrite Es; auto|rewrite Es; auto|exact Wl].
+  - apply (Llate_transfer _ (c_sh c)); [rewrite Es; auto|rewrite Es; auto|exact Wl].
   - cbn [o_th]. intros x E; injection E as <-. exact HL.
   - cbn [o_spawn]. intros x E; discriminate E.
 Qed.
@@ -143,10 +144,10 @@ Proof.
   assert (A2 : tsum spath (c_thr c') = tsum spath (c_thr c)) by (clear - Espath; lia).
   assert (A3 : tsum shpath (c_thr c') = tsum shpath (c_thr c)) by (clear - Eshpath; lia).
   assert (A4 : tsum atclose (c_thr c') = tsum atclose (c_thr c)) by (clear - Eatclose; lia).
-  constructor; rewrite ?Fsh, ?G1, ?G2, ?G3, ?G4, ?G5, ?G6, ?Es, ?Ep, ?Ec, ?A1, ?A2, ?A3, ?A4; auto.
+  constructor; rewrite ?Fpar, ?Fsh, ?G1, ?G2, ?G3, ?G4, ?G5, ?G6, ?Es, ?Ep, ?Ec, ?A1, ?A2, ?A3, ?A4; auto.
   eapply apply_out_tall; [ | | exact Ha | | ].
   - apply wo_Llate.
-  - apply (Llate_transfer (c_sh c)); [rewrite Es; auto|rewrite Es; auto|exact Wl].
+  - apply (Llate_transfer _ (c_sh c)); [rewrite Es; auto|rewrite Es; auto|exact Wl].
   - cbn [o_th]. intros x E; discriminate E.
   - cbn [o_spawn]. intros x E; discriminate E.
 Qed.
@@ -181,6 +182,7 @@ Proof.
   (*SELECT*)
   all: destruct HI as [_ Vhold Vlock Vprev Vloc _ _ _ Vpre Vcr Vlcr].
   all: destruct HJ as [Wb Ws Wd Wsh Wc Wl Wn Wk].
+  all: rewrite Vpar in Wl.
   all: pose proof (apply_out_tsum thold c t th _ c' obs wi_thold Hl Ha) as Ethold.
   all: pose proof (apply_out_tsum spath c t th _ c' obs wi_spath Hl Ha) as Espath.
   all: pose proof (apply_out_tsum shpath c t th _ c' obs wi_shpath Hl Ha) as Eshpath.
@@ -224,7 +226,7 @@ Proof.
                           (3 <= sz (s_state (c_sh c)) <= 4 -> 3 <= sz (s_state (c_sh c')) <= 4))
        by (rewrite Fsh; shcbn; rewrite ?sz_want; repeat match goal with H : l_second _ = _ |- _ => rewrite H end;
            clear Ha Wl Wn Wb Wd Vpre Vcr Vlcr Zb5 Ws Wsh Wc; lia).
-  all: constructor; rewrite ?Fsh, ?Fgh;
+  all: constructor; rewrite ?Fpar, ?Vpar, ?Fsh, ?Fgh;
        cbn [g_sent g_started g_done g_returned g_acc g_rej g_starts g_shuts g_now g_grace g_began g_shut
             gs_sent gs_started gs_done gs_returned gs_acc gs_rej gs_starts gs_shuts gs_now gs_grace gs_began gs_shut];
        shcbn; cbn [zb]; rewrite ?sz_want;
@@ -236,7 +238,7 @@ Proof.
   | clear Ha Wl Wn Wb Vpre Vcr Vlcr Zb5 Ws Wsh Hlate_tr Tth Vlock; lia
   | eapply apply_out_tall; [ | | exact Ha | | ];
     [ apply wo_Llate
-    | apply (Llate_transfer (c_sh c)); [first [(intros X; exact X) | (rewrite <- Fsh; apply Hlate_tr)] | first [(intros X; exact X) | (rewrite <- Fsh; apply Hlate_tr)] | exact Wl]
+    | apply (Llate_transfer _ (c_sh c)); [first [(intros X; exact X) | (rewrite <- Fsh; apply Hlate_tr)] | first [(intros X; exact X) | (rewrite <- Fsh; apply Hlate_tr)] | exact Wl]
     | cbn [o_th]; intros x E; first [discriminate E | injection E as <-; unfold Llate; cbn; intros Hlate; specialize (Tth Hlate);
          first [exact Tth | contradiction | (shcbn; clear Ha Wl Wn Wb Wd Vpre Vcr Vlcr Zb5 Ws Wsh Wc Hlate_tr; lia)]]
     | cbn [o_spawn]; intros x E; first [discriminate E | injection E as <-; unfold Llate; cbn; intros X; discriminate X] ]
@@ -248,15 +250,15 @@ Qed.
 (* ---------------------------------------------------------------- the other events *)
 Lemma inv2_update c t th th' :
   Inv2 c -> lookup t (c_thr c) = Some th ->
-  cls2 (pc th') = cls2 (pc th) -> Llate (c_sh c) th' ->
+  cls2 (pc th') = cls2 (pc th) -> Llate (i_fixc (c_par c)) (c_sh c) th' ->
   Inv2 (with_thr c (update t th' (c_thr c))).
 Proof.
   intros HJ Hl E1 E2.
   eapply (inv2_frame c t th th' (c_sh c) _ _ WkNone [] HJ Hl (apply_out_update c t th')); auto.
 Qed.
 
-Lemma Llate_same_pc s th th' :
-  pc th' = pc th -> l_late th' = l_late th -> Llate s th -> Llate s th'.
+Lemma Llate_same_pc fc s th th' :
+  pc th' = pc th -> l_late th' = l_late th -> Llate fc s th -> Llate fc s th'.
 Proof. unfold Llate. intros -> ->. auto. Qed.
 
 Lemma is_down_sz s : is_down s = true -> 3 <= sz (s_state s) <= 4.
